@@ -71,25 +71,32 @@ var errInjected = errors.New("injected hardware fault")
 // hwapi.HwAPI.ReadMSR) are counted and fail according to the pattern; CPUID
 // style accessors cannot fail and are passed through.
 type faultHW struct {
-	base  hwapi.LowLevelHardwareInterfaces
-	mode  int
-	k     int
-	n     int
-	calls []string
+	base   hwapi.LowLevelHardwareInterfaces
+	mode   int
+	k      int
+	n      int
+	nfail  int
+	calls  []string
+	failed []bool // failed[i]: the (i+1)-th fallible call failed
 }
 
 func (f *faultHW) fail(name string) bool {
 	f.n++
-	if len(f.calls) < 4096 {
-		f.calls = append(f.calls, name)
-	}
+	bad := false
 	switch f.mode {
 	case faultFromK:
-		return f.n >= f.k
+		bad = f.n >= f.k
 	case faultOnlyK:
-		return f.n == f.k
+		bad = f.n == f.k
 	}
-	return false
+	if len(f.calls) < 4096 {
+		f.calls = append(f.calls, name)
+		f.failed = append(f.failed, bad)
+	}
+	if bad {
+		f.nfail++
+	}
+	return bad
 }
 
 func (f *faultHW) VersionString() string      { return f.base.VersionString() }
